@@ -154,7 +154,6 @@ fn take_panic() -> (String, String) {
 pub fn panic_is_library(loc: &str, msg: &str) -> bool {
     msg.starts_with(LIB_FAULT_PREFIX)
         || loc.starts_with("/repo/")
-        || loc.starts_with("src/") // path as seen when similar is built from its own dir
         || loc.contains("/bstr-")
         || loc.contains("/unicode-segmentation-")
         || loc.contains("/similar")
